@@ -209,6 +209,55 @@ def azimuth_processing(ctx, rng):
                 break
 
 
+def orient_history(ctx, rng):
+    """re-orienting is a rotation of the samples the recording holds NOW: histories orient -> (detrend | taper | filter | trim | direct assignment
+    of the amplitudes) -> orient on ONE object; the second rotation is judged against numpy on a snapshot taken just before it"""
+    for _ in range(ctx.budget(60, 600)):
+        n = int(rng.integers(24, 60))
+        dep = pick_angle(rng)
+        rec = pg.gen_record(rng, n=n, deg=dep, scale=float(10.0 ** rng.integers(-2, 3)))
+        for k in ("ns", "ew", "vt"):      # a trend and an offset, so that detrending changes the samples
+            rec[k] = (np.array(rec[k]) + np.linspace(0, 3, n) * float(np.max(np.abs(rec[k]))) + 1.5).tolist()
+        sr = pg.make_srecord(rec)
+        steps = []
+        ok = True
+        for _step in range(int(rng.integers(2, 5))):
+            tgt = pick_angle(rng)
+            cur = float(sr.degrees_from_north)
+            ns0, ew0, vt0 = sr.ns.amplitude.copy(), sr.ew.amplitude.copy(), sr.vt.amplitude.copy()
+            sr.orient_sensor_to(tgt)
+            ang = np.radians(tgt - cur)
+            c, s_ = np.cos(ang), np.sin(ang)
+            want_ns, want_ew = ew0 * s_ + ns0 * c, ew0 * c - ns0 * s_
+            steps.append(("orient", tgt))
+            sc = float(max(np.max(np.abs(ns0)), np.max(np.abs(ew0)), 1e-300))
+            if not (len(sr.ns.amplitude) == len(want_ns) and np.allclose(sr.ns.amplitude, want_ns, rtol=0, atol=1e-9 * sc)
+                    and np.allclose(sr.ew.amplitude, want_ew, rtol=0, atol=1e-9 * sc) and np.array_equal(sr.vt.amplitude, vt0)):
+                ctx.violation("exact-rotation-clockwise-from-north",
+                              dict(case=dict(record=rec, history=steps), why="after this history orient_sensor_to did not rotate the samples the recording held "
+                                   "just before the call (energy/vertical also judged)", held_ns=ns0.tolist(), held_ew=ew0.tolist(), current=cur, target=tgt,
+                                   impl_ns=sr.ns.amplitude.tolist(), impl_ew=sr.ew.amplitude.tolist(), want_ns=want_ns.tolist(), want_ew=want_ew.tolist()),
+                              seam="SeismicRecording3C.orient_sensor_to after edits")
+                ok = False
+                break
+            op = str(rng.choice(["detrend", "window", "filter", "assign", "trim", "none"]))
+            if op == "detrend":
+                sr.detrend(type=str(rng.choice(["linear", "constant"])))
+            elif op == "window":
+                sr.window(type="tukey", width=0.3)
+            elif op == "filter":
+                sr.butterworth_filter((None, 0.3 / (2 * rec["dt"])))
+            elif op == "assign":
+                for ts in (sr.ns, sr.ew):
+                    ts.amplitude = ts.amplitude * float(rng.uniform(0.5, 2.0)) + float(rng.normal())
+            elif op == "trim":
+                sr.trim(2 * rec["dt"], (len(sr.ns.amplitude) - 3) * rec["dt"])
+            steps.append((op,))
+        ctx.case(("orient-history", rec["deg"], rec["ns"], [str(x) for x in steps]), nontrivial=True)
+        ctx.count("orient-history:" + ("ok" if ok else "violation"))
+        ctx.supporting["orient_history_cases"] = ctx.supporting.get("orient_history_cases", 0) + 1
+
+
 def run(ctx):
     ctx.rule = ("(a) orient_sensor_to on records of 4-40 samples for deployed/target angles in [-720, 1080] incl. multiples of 90 and values outside [0,360) vs the "
                 "model rotation; (b) single-azimuth / RotDpp processing of records with non-zero orientation vs the model; (c) on the implementation at the default "
@@ -216,6 +265,7 @@ def run(ctx):
                 "non-trivial = rotation angle not a multiple of 90 degrees (a), successful processing (b); distinct by input hash")
     rng = np.random.default_rng(ctx.seed)
     orient_seam(ctx, rng)
+    orient_history(ctx, np.random.default_rng(ctx.seed + 4))
     preprocess_orientation(ctx, rng)
     azimuth_processing(ctx, rng)
 
